@@ -15,7 +15,8 @@ EXPLANATION = (
     'conversions (int64 minimum with sign: 20, %E18S: 21) are computed, not assumed. C08-table: every '
     'subscript of kDigits and kExp10 is in bounds. C08-tm: the narrowing of year-1900 into tm_year is '
     'reached only for exactly the years whose difference fits an int, and FormatTM is never handed '
-    'an empty format. C08-cursor: a finite typestate over the scan cursors shows no read or advance '
+    'an empty format. C08-escape: the specifier dispatch is reached only when the run of percent signs '
+    'before it, counted from its first character, has odd length. C08-cursor: a finite typestate over the scan cursors shows no read or advance '
     'beyond the end of the format string. Assumes the documented precondition 0 <= fs < 1s, the '
     'accessor ranges proved under C04 and |utc offset| < 24h established at load (C12/C15). Does not '
     'decide that the text rendered is the documented rendering, nor what strftime does.')
@@ -201,9 +202,76 @@ def run(ctx):
                       construct='tm:formattm:%s' % Ff.keys.key(call_args(x)[1])[:40])
     ctx.minimum('C08-tm', 8)
 
+    # ---- C08-escape: a specifier is interpreted only after an odd-length run of '%'
+    Ff = ctx.facts(f)
+    gf = ctx.cfg(f)
+    raw = Keys(u)
+    disp = [x for x in walk(f) if x.get('kind') == 'CallExpr' and callee(x) and callee(x)[0] == 'fn' and
+            callee(x)[1].get('name') == 'strchr' and peel(call_args(x)[0]).get('kind') == 'StringLiteral']
+    okp = False
+    detail = ''
+    if len(disp) == 1:
+        fs = Ff.facts_at_ast(disp[0]) or frozenset()
+        for (op, a, b) in fs:
+            m = re.match(r'^\(\((\w+#0x[0-9a-f]+) - (\w+#0x[0-9a-f]+)\) % n:2\)$', a if b == 'n:0' else b)
+            if op == '!=' and 'n:0' in (a, b) and m:
+                curk, startk = m.group(1), m.group(2)
+                sd = u.by_id.get(startk.split('#')[1])
+                if sd is None or not kids(sd) or raw.key(kids(sd)[-1]) != curk:
+                    continue
+                # between the declaration of the run start and the dispatch, the cursor moves only over '%'
+                starts = gf.nodes_for(sd)
+                seen = set()
+                stack = [m_ for s_ in starts for (m_, _) in s_.succs]
+                good = True
+                dn = set(n.id for n in gf.nodes_for(disp[0]))
+                while stack:
+                    n = stack.pop()
+                    if n.id in seen or n.id in dn or any(n is s_ for s_ in starts):
+                        continue
+                    seen.add(n.id)
+                    if n.kind == 'loop' and n.ast is not None and n.ast.get('kind') == 'WhileStmt' and \
+                            not any(a_ is n.ast for a_ in ancestors(sd)):
+                        pass
+                    if n.kind in ('stmt', 'cond') and n.ast is not None:
+                        from ..expr import written_lvalues
+                        for lv in written_lvalues(n.ast):
+                            if raw.key(lv) == curk:
+                                nf = Ff.facts_at(n)
+                                if not any(o2 == '==' and set((a2, b2)) == set(('*(%s)' % curk, 'n:37')) for (o2, a2, b2) in nf):
+                                    # a write to cur after the dispatch point of an earlier iteration is fine:
+                                    # only writes that can reach the dispatch without redefining the run start matter
+                                    if gf.reachable_avoiding(gf.nodes_for(disp[0]), cut_nodes=starts) and \
+                                            _reaches(gf, n, dn, avoid=starts):
+                                        good = False
+                    stack.extend(m_ for (m_, _) in n.succs)
+                if good:
+                    okp = True
+                    detail = '%s counted from %s' % (curk.split('#')[0], startk.split('#')[0])
+    ctx.check(okp, 'C08-escape', 'specifier dispatch only after an odd run of percent signs', disp[0] if disp else f,
+              'the characters after a run of percent signs are interpreted as a specifier without the length of that run having '
+              'been found odd (counted from the start of the run): an escaped "%%" is taken for the start of a specifier',
+              construct='escape:parity', detail=detail)
+    ctx.minimum('C08-escape', 1)
+
     # ---- C08-cursor
     cursor.check_function(ctx, 'C08-cursor', k)
     ctx.minimum('C08-cursor', 10)
+
+
+def _reaches(g, start, targets, avoid=()):
+    av = set(n.id for n in avoid)
+    seen = set()
+    stack = [m for (m, _) in start.succs]
+    while stack:
+        n = stack.pop()
+        if n.id in seen or n.id in av:
+            continue
+        seen.add(n.id)
+        if n.id in targets:
+            return True
+        stack.extend(m for (m, _) in n.succs)
+    return False
 
 
 def _fn_of(site):
